@@ -227,9 +227,12 @@ func (m c14) pair(c *core.Ctx, src string, modules map[string]string, args []ugo
 		c.Count("discarded_compile_error")
 		return false, st
 	}
-	a := runVM(ca.bc, args, ugo.Map{"G": ugo.Int(3)}, true)
+	panicFn := func() *ugo.Function {
+		return &ugo.Function{Name: "PANIC", Value: func(...ugo.Object) (ugo.Object, error) { panic("go callback panic") }}
+	}
+	a := runVM(ca.bc, args, ugo.Map{"G": ugo.Int(3), "PANIC": panicFn()}, true)
 	call, cleanup := c14call(variant, st)
-	b := runVM(cb.bc, args, ugo.Map{"G": ugo.Int(3), "CALL": call}, true)
+	b := runVM(cb.bc, args, ugo.Map{"G": ugo.Int(3), "CALL": call, "PANIC": panicFn()}, true)
 	cleanup()
 	if a.Kind == "timeout" || b.Kind == "timeout" {
 		c.Inconclusive("watchdog")
@@ -273,6 +276,8 @@ var c14probes = []string{
 	"global L\nouter := func(n) {\n  inner := func(k) { return k * n }\n  return CALL(inner, 2) + CALL(inner, 3)\n}\nreturn [CALL(outer, 1), CALL(outer, 10)]",
 	"global L\nvar fact\nfact = func(n) {\n  if n <= 1 {\n    return 1\n  }\n  return n * CALL(fact, n - 1)\n}\nreturn CALL(fact, 6)",
 	"global L\nf := func() {\n  try {\n    return import(\"mod0\").bump(1)\n  } finally {\n    L(\"fin\")\n  }\n}\nCALL(f)\nimport(\"mod0\").bump(10)\nreturn [CALL(f), import(\"mod0\").get()]",
+	// a Go callback panics inside a function that has its own try/catch/finally (recovery is enabled on the VM)
+	"global L\nglobal PANIC\nf := func(n) {\n  try {\n    if n > 0 {\n      PANIC()\n    }\n    return \"ok\"\n  } catch e {\n    return \"caught\"\n  } finally {\n    L(\"fin\", n)\n  }\n}\ng := func(n) {\n  try {\n    return PANIC()\n  } finally {\n    L(\"g fin\", n)\n  }\n}\nr := [CALL(f, 0), CALL(f, 1), CALL(f, 0)]\ntry {\n  CALL(g, 5)\n} catch e {\n  L(\"outer caught\")\n  r = append(r, \"outer\")\n}\nreturn r",
 	// variadic functions that write to / keep their rest parameter
 	"global L\nbump := func(a, ...rest) {\n  rest[0] += a\n  return rest[0]\n}\nL(CALL(bump, 10, 1, 2))\nL(CALL(bump, 10, 1, 2))\nkeep := []\nhold := func(...r) {\n  keep = append(keep, r)\n  r[0] = \"w\"\n  return len(r)\n}\nL(CALL(hold, 1, 2))\nL(CALL(hold, 3))\nreturn keep",
 	"global L\nall := func(...r) {\n  for i := 0; i < len(r); i++ {\n    r[i] = r[i] * 2\n  }\n  return r\n}\nx := CALL(all, 1, 2, 3)\ny := CALL(all, x[0], x[1], x[2])\nx[0] = 100\nreturn [x, y, CALL(all)]",
